@@ -43,13 +43,14 @@ Definition q (n : string) (sels : list selection) : opdef :=
   {| op_type := OpQuery; op_name := Some (bs n); op_sels := sels |}.
 
 (** query Q {
-      nodes { t: __typename id ... on User { name } ... on User { login friends { id } } ... { id2: id } ...F }
+      nodes { t: __typename id ... on User { name } ... on User { login friends { id } login friends { name id } }
+              ... { id2: id } ...F }
       me { age ... on Actor { __typename ... on User { color score } } } }
     fragment F on Org { title ... on Node { __typename id } } *)
 Definition ex_op : opdef :=
   q "Q" [ F "nodes" [ FA "t" "__typename" []; F "id" [];
                       ON "User" [F "name" []];
-                      ON "User" [F "login" []; F "friends" [F "id" []]];
+                      ON "User" [F "login" []; F "friends" [F "id" []]; F "login" []; F "friends" [F "name" []; F "id" []]];
                       INL [FA "id2" "id" []];
                       SP "F" ];
           F "me" [ F "age" []; ON "Actor" [F "__typename" []; ON "User" [F "color" []; F "score" []]] ] ].
@@ -66,7 +67,7 @@ Definition ex_resp : rv :=
   RObj (bs "Query")
     [ (bs "nodes",
        RList [ RObj (bs "User") [ (bs "t", S_ "User"); (bs "id", S_ "u1"); (bs "name", RNull); (bs "login", S_ "ann");
-                                  (bs "friends", RList [RObj (bs "User") [(bs "id", S_ "u2")]]); (bs "id2", S_ "u1") ];
+                                  (bs "friends", RList [RObj (bs "User") [(bs "id", S_ "u2"); (bs "name", S_ "bob")]]); (bs "id2", S_ "u1") ];
                RObj (bs "Org") [ (bs "t", S_ "Org"); (bs "id", S_ "o1"); (bs "id2", S_ "o1"); (bs "title", S_ "acme");
                                  (bs "__typename", S_ "Org") ];
                RNull ]);
@@ -81,10 +82,10 @@ Definition leaves_agree (p : program) (S : schema) (o : opdef) (opname : string)
   end.
 
 (** ** the repaired defects, on the model of the code before each repair *)
-Definition quirk27 : quirks := {| q_overwrite_inline := true; q_fixed_typename := false; q_nil_cond_panics := false; q_no_union_cond := false |}.
-Definition quirk28 : quirks := {| q_overwrite_inline := false; q_fixed_typename := true; q_nil_cond_panics := false; q_no_union_cond := false |}.
-Definition quirk29 : quirks := {| q_overwrite_inline := false; q_fixed_typename := false; q_nil_cond_panics := true; q_no_union_cond := false |}.
-Definition quirk_union : quirks := {| q_overwrite_inline := false; q_fixed_typename := false; q_nil_cond_panics := false; q_no_union_cond := true |}.
+Definition quirk27 : quirks := {| q_overwrite_inline := true; q_fixed_typename := false; q_nil_cond_panics := false; q_no_union_cond := false; q_no_field_merge := false |}.
+Definition quirk28 : quirks := {| q_overwrite_inline := false; q_fixed_typename := true; q_nil_cond_panics := false; q_no_union_cond := false; q_no_field_merge := false |}.
+Definition quirk29 : quirks := {| q_overwrite_inline := false; q_fixed_typename := false; q_nil_cond_panics := true; q_no_union_cond := false; q_no_field_merge := false |}.
+Definition quirk_union : quirks := {| q_overwrite_inline := false; q_fixed_typename := false; q_nil_cond_panics := false; q_no_union_cond := true; q_no_field_merge := false |}.
 
 (** row 27: query A { node { __typename ... on User { name } ... on User { login } } } *)
 Definition op27 : opdef := q "A" [F "node" [F "__typename" []; ON "User" [F "name" []]; ON "User" [F "login" []]]].
@@ -103,6 +104,14 @@ Definition opU : opdef := q "E" [F "node" [F "__typename" []; ON "Actor" [F "__t
 Definition docU : document := mkdoc [opU] [].
 Definition respU : rv :=
   RObj (bs "Query") [(bs "node", RObj (bs "User") [(bs "__typename", S_ "User"); (bs "name", S_ "n")])].
+
+(** a response key selected twice: query M { me { friends { id } id friends { name } id } } *)
+Definition quirk_merge : quirks := {| q_overwrite_inline := false; q_fixed_typename := false; q_nil_cond_panics := false; q_no_union_cond := false; q_no_field_merge := true |}.
+Definition opM : opdef := q "M" [F "me" [F "friends" [F "id" []]; F "id" []; F "friends" [F "name" []]; F "id" []]].
+Definition docM : document := mkdoc [opM] [].
+Definition respM : rv :=
+  RObj (bs "Query") [(bs "me", RObj (bs "User") [(bs "friends", RList [RObj (bs "User") [(bs "id", S_ "u2"); (bs "name", S_ "bob")]]);
+                                                 (bs "id", S_ "u1")])].
 
 (** ** the known findings, on the model of the current code *)
 (** member-name-clash: query K { node { __typename user: id ... on User { name } } } *)
@@ -164,6 +173,20 @@ Lemma refuted_before_fix_union :
   generated_and (generate quirk_union ex_schema (doc_valid ex_schema docU) docU)
     (fun p => negb (leaves_agree p ex_schema (hd opU (d_ops docU)) "E" respU)) = true.
 Proof. repeat split; vm_compute; reflexivity. Qed.
+
+(** a response key selected twice, before the repair: the sub-selection of the first selection is
+    not in the generated type, its leaf is lost *)
+Lemma refuted_before_fix_field_merge :
+  in_envelope ex_schema docM = true /\
+  conforms ex_schema (hd opM (d_ops docM)) respM = true /\
+  generated_and (generate quirk_merge ex_schema (doc_valid ex_schema docM) docM)
+    (fun p => negb (leaves_agree p ex_schema (hd opM (d_ops docM)) "M" respM)) = true.
+Proof. repeat split; vm_compute; reflexivity. Qed.
+
+Lemma fixed_field_merge :
+  generated_and (generate no_quirks ex_schema (doc_valid ex_schema docM) docM)
+    (fun p => wf_program p && leaves_agree p ex_schema (hd opM (d_ops docM)) "M" respM) = true.
+Proof. vm_compute. reflexivity. Qed.
 
 (** with the repairs, the same operations are handled *)
 Lemma fixed_27_28_29_union :
